@@ -378,5 +378,15 @@ class Facts:
             self._callers = idx
         return self._callers
 
+    def impl_method(self, trait, self_ty, method):
+        """Body of `method` in the impl of `trait` whose self type equals / starts with `self_ty` (robust against
+        rustc's two spellings `<T as Tr>::m` vs `module::<impl Tr for T>::m`)."""
+        for i in self.impls:
+            if i.get("trait") == trait and (i["self_ty"] == self_ty or i["self_ty"].startswith(self_ty)):
+                p = i["methods"].get(method)
+                if p:
+                    return self.body(p)
+        return None
+
     def impls_of(self, trait):
         return [i for i in self.impls if i.get("trait") == trait]
